@@ -305,7 +305,10 @@ def _work(item, seed, tier):
     name, plist = item
     fn = CASES[name]
     for p in plist:
-        v = fn(p)
+        if False:
+            pass
+        else:
+            v = fn(p)
         nontrivial = bool(p.get("spec") or p.get("data"))
         acc.case(key=(name, core.jsonable(p)), outcome=f"{name}:{'ok' if not v else v[0][0]}", nontrivial=nontrivial, sample={"case": name, "params": p}, symbols=(name,))
         for sig, detail in v:
